@@ -45,21 +45,31 @@
                               parsing yields corrS on the three proved no-base classes of non-special schemes
                               of C01; with it the statement for these start URLs x seven setters x all histories
      C07_related_corrS, C07_spec_parse_invariants, C07_parse_model_extra, C07_parse_all_corrS
-                              parsing yields corrS for EVERY scalar-value input outside Known_C01, special schemes
-                              included (the second clause of C07_statement with R := corrS): from C01_statement_all
-                              (`related` pairs) through a bridge related => corrS whose side conditions are parser
-                              invariants of the two sides; host functions: host_parse_ok
+                              parsing yields corrS for every scalar-value input outside Known_C01 whose scheme is not
+                              "file", special schemes included (the second clause of C07_statement with R := corrS): from
+                              C01_statement_all (`related` pairs) through a bridge related => corrS whose side conditions
+                              are parser invariants of the two sides; host functions: host_parse_ok.  (File inputs inside
+                              the recogniser k_file_ok are outside Known_C01 since its class 1 was narrowed; the bridge
+                              does not cover them: input_is_file input = false is an explicit hypothesis.)
      C07_seven_all, C07_statement_seven_all
-                              C07_statement restricted to seven setters for every URL parsed outside Known_C01
+                              C07_statement restricted to seven setters for every URL so parsed
      C07_href_equiv, C07_eight_setters_partial, C07_eight_histories, C07_statement_eight_all
                               href (= C01, outside classes 11-14) up to C01's Overflow arm (a new URL longer than
-                              u32::MAX bytes: the code keeps the old URL); eight setters, all histories
+                              u32::MAX bytes: the code keeps the old URL) and for values whose scheme is not "file";
+                              eight setters, all histories
      C07_host_standard_portless, C07_host_portless_equiv
                               host on values without a port part (no ':' outside brackets): the Standard's host
                               setter is its hostname setter there, and so is url::quirks::set_host outside classes
-                              2, 3, 4, 7 of Known_C07 - one assignment preserves corrS
-   The gap: the host setter on values with a port part, the pathname setter, hostname on file URLs (class 4 of
-   Known_C07 covers them all), href values whose URL exceeds u32::MAX bytes, and host_parse_ok in place of
+                              2, 3, 4, 7 of Known_C07
+     C07_host_standard_closed, C07_host_equiv
+                              the Standard's host setter in closed form (host state continuing into the port state with
+                              a state override: host changed, port unchanged on failure); host on EVERY value, with or
+                              without a port part, outside classes 2, 3, 4, 7: the Standard's on every corrS pair
+     C07_nine_setters_partial, C07_nine_histories, C07_nine_all, C07_statement_nine_all
+                              nine setters (the eight and host): one step, all histories, from every parsed start URL,
+                              and in the shape of C07_statement
+   The gap: the pathname setter, host / hostname on file URLs (class 4 of Known_C07 covers them all), inputs and href
+   values whose scheme is "file", href values whose URL exceeds u32::MAX bytes, and host_parse_ok in place of
    hosts_agree.
    It is covered by the fixed-seed differential run implementation <-> specification model of the
    harness (a test). *)
